@@ -1,6 +1,7 @@
 #!/bin/bash
 # run every registered quick check on the current /repo tree and print the exit codes (all must be 0 on the unchanged tree)
-cd /verif
+cd "$(dirname "$0")/.."
+mkdir -p out
 bad=0
 for p in $(python3 -c "import json; print(' '.join(c['property_id'] for c in json.load(open('MANIFEST.json'))['checks']))"); do
   ./check $p --tier ${1:-quick} > out/last_$p.txt 2>&1; rc=$?
